@@ -345,7 +345,7 @@ fn ps(p: &elements::pset::PartiallySignedTransaction, mut tags: Vec<String>, out
     if b.len() > 40_000 { return; }
     let mut oracle = pset_serde::Oracle::default();
     let value = q.tof(&mut oracle);
-    if let Some(e) = oracle.failed { tags.push(format!("oracle-failed:{}", e.split(':').next().unwrap_or(""))); }
+    if let Some(ref e) = oracle.failed { tags.push(format!("oracle-failed:{}", e.split(':').next().unwrap_or(""))); }
     let mut pts = valid_points(&b);
     for x in pset_serde::extra_points(&q) { if !pts.contains(&x) { pts.push(x); } }
     tags.push("serde:pset-derived".into());
